@@ -439,15 +439,27 @@ impl<'a, 'b, 'ast> Visit<'ast> for Collector<'a, 'b> {
                 let what = if j >= 0 { toks[j as usize].clone() } else { "expr".to_string() };
                 inner.push(what);
             } else if toks[i] == "!" && i >= 1 && ["select", "join", "try_join"].contains(&toks[i - 1].as_str()) {
-                inner.push(format!("{}!", toks[i - 1]));
+                let h = if i + 1 < toks.len() && ["{", "(", "["].contains(&toks[i + 1].as_str()) {
+                    let end = group_end(&toks, i + 1);
+                    branch_heads(&toks, i + 2, end)
+                } else {
+                    Vec::new()
+                };
+                inner.push(if h.is_empty() { format!("{}!", toks[i - 1]) } else { format!("{}!({})", toks[i - 1], h.join(",")) });
             }
         }
+        let heads = if name == "select" || name == "join" || name == "try_join" {
+            branch_heads(&toks, 0, toks.len())
+        } else {
+            Vec::new()
+        };
+        let label = if heads.is_empty() { format!("{}!", name) } else { format!("{}!({})", name, heads.join(",")) };
         let suspends = name == "select" || name == "join" || name == "try_join" || !inner.is_empty();
         if suspends {
             if inner.is_empty() {
-                self.out.push(Node::Await { site, what: format!("{}!", name) });
+                self.out.push(Node::Await { site, what: label });
             } else {
-                self.out.push(Node::Await { site: site.clone(), what: format!("{}!{{", name) });
+                self.out.push(Node::Await { site: site.clone(), what: format!("{}{{", label) });
                 for w in inner {
                     self.out.push(Node::Await { site: site.clone(), what: w });
                 }
@@ -464,6 +476,108 @@ impl<'a, 'b, 'ast> Visit<'ast> for Collector<'a, 'b> {
         }
         visit::visit_expr(self, e);
     }
+}
+
+/// The futures a select! races (and drops when they lose), read off the flattened tokens toks[from..to] of its body:
+/// for every branch `<pattern> = <future> => <handler>` the name of the future - the last function or method called in
+/// the expression, or the variable if it is one (`&mut remove` -> `remove`).
+fn branch_heads(toks: &[String], from: usize, to: usize) -> Vec<String> {
+    let mut heads = Vec::new();
+    let mut i = from;
+    let is_ident = |t: &String| t.chars().next().map(|c| c.is_alphabetic() || c == '_').unwrap_or(false);
+    while i < to {
+        // find the `=` that separates pattern and future (not ==, =>, <=, >=, !=)
+        let mut depth = 0isize;
+        let mut eq = None;
+        let mut j = i;
+        while j < to {
+            match toks[j].as_str() {
+                "(" | "{" | "[" => depth += 1,
+                ")" | "}" | "]" => depth -= 1,
+                "=" if depth == 0 => {
+                    let next = toks.get(j + 1).map(|s| s.as_str()).unwrap_or("");
+                    let prev = if j > from { toks[j - 1].as_str() } else { "" };
+                    if next != ">" && next != "=" && !["=", "!", "<", ">"].contains(&prev) {
+                        eq = Some(j);
+                        break;
+                    }
+                }
+                _ => {}
+            }
+            j += 1;
+        }
+        let Some(eq) = eq else { break };
+        // the future: up to `=>` at depth 0
+        let mut k = eq + 1;
+        depth = 0;
+        let mut name: Option<String> = None;
+        while k + 1 < to {
+            match toks[k].as_str() {
+                "(" | "{" | "[" => {
+                    if depth == 0 && toks[k] == "(" && k > eq + 1 && is_ident(&toks[k - 1]) {
+                        name = Some(toks[k - 1].clone());
+                    }
+                    depth += 1;
+                }
+                ")" | "}" | "]" => depth -= 1,
+                "=" if depth == 0 && toks[k + 1] == ">" => break,
+                t if depth == 0 && is_ident(&toks[k]) && t != "mut" && name.is_none() => {
+                    // a plain variable so far; a later call overrides it
+                }
+                _ => {}
+            }
+            k += 1;
+        }
+        if name.is_none() {
+            name = toks[eq + 1..k.min(to)].iter().rev().find(|t| is_ident(t) && t.as_str() != "mut").cloned();
+        }
+        heads.push(name.unwrap_or_else(|| "?".to_string()));
+        // skip the handler: a { } block, or an expression up to the next `,` at depth 0
+        let mut m = k + 2;
+        if m < to && toks[m] == "{" {
+            m = group_end(toks, m) + 1;
+            if m < to && toks[m] == "," {
+                m += 1;
+            }
+        } else {
+            depth = 0;
+            while m < to {
+                match toks[m].as_str() {
+                    "(" | "{" | "[" => depth += 1,
+                    ")" | "}" | "]" => depth -= 1,
+                    "," if depth == 0 => {
+                        m += 1;
+                        break;
+                    }
+                    _ => {}
+                }
+                m += 1;
+            }
+        }
+        i = m;
+    }
+    heads
+}
+
+/// Index of the token that closes the group opened at toks[open].
+fn group_end(toks: &[String], open: usize) -> usize {
+    let (o, c) = match toks[open].as_str() {
+        "{" => ("{", "}"),
+        "(" => ("(", ")"),
+        _ => ("[", "]"),
+    };
+    let mut depth = 0usize;
+    for i in open..toks.len() {
+        if toks[i] == o {
+            depth += 1;
+        } else if toks[i] == c {
+            depth -= 1;
+            if depth == 0 {
+                return i;
+            }
+        }
+    }
+    toks.len()
 }
 
 fn flatten_tokens(ts: proc_macro2::TokenStream, out: &mut Vec<String>) {
